@@ -48,6 +48,7 @@ type SCast struct {
 	X    SExpr
 }
 type SDeref struct{ X SExpr }
+type SAddrOf struct{ X SExpr }
 
 type SType struct {
 	Ptr   bool
@@ -292,6 +293,9 @@ func (p *parser) unary() SExpr {
 		case "*":
 			p.next()
 			return SDeref{p.unary()}
+		case "&":
+			p.next()
+			return SAddrOf{p.unary()}
 		}
 	}
 	if t.k == "id" && (t.s == "forall" || t.s == "exists") {
@@ -487,6 +491,8 @@ type Contract struct {
 	Why        string
 	IntOverflow bool
 	EMatch      bool // wrap element index sums in ix() for arithmetic-free triggers
+	Extern      bool // contract of a function outside the package of the file
+	Unreachable map[int]bool // return sites (ordinals) known to be dead code
 }
 
 type SpecFunc struct {
@@ -542,7 +548,7 @@ type SpecFile struct {
 var topKeywords = map[string]bool{"global": true, "spec": true, "ghost": true, "func": true, "lemma": true, "iface": true, "guarded": true, "level": true, "extern": true}
 var clauseKeywords = map[string]bool{"safe": true, "inline": true, "pure": true, "props": true, "requires": true, "ensures": true,
 	"modifies": true, "invariant": true, "loopmodifies": true, "assume": true, "assert": true, "trusted": true, "reads": true,
-	"fresh": true, "ghost": true, "why": true, "nooverflow": true, "witness": true, "uses": true, "ematch": true}
+	"fresh": true, "ghost": true, "why": true, "nooverflow": true, "witness": true, "uses": true, "ematch": true, "unreachable": true}
 
 // parseSpecText parses the //@ lines of a contract file.  pkg is the
 // package path the file belongs to ("" for the trusted table).
@@ -666,6 +672,7 @@ func parseSpecText(pkg, file, text string) (*SpecFile, error) {
 				} else {
 					if s.kw == "extern" {
 						cur.Trusted = true
+						cur.Extern = true
 					}
 					if _, dup := sf.Funcs[key]; dup {
 						return nil, fail(s.n, "duplicate contract for %s", key)
@@ -736,6 +743,16 @@ func parseSpecText(pkg, file, text string) (*SpecFile, error) {
 			cur.IntOverflow = true
 		case "ematch":
 			cur.EMatch = true
+		case "unreachable":
+			// unreachable ret N [ret M ...]: dead return sites (no reachability canary)
+			if cur.Unreachable == nil {
+				cur.Unreachable = map[int]bool{}
+			}
+			for _, w := range strings.Fields(s.rest) {
+				if n, err := strconv.Atoi(strings.TrimPrefix(w, "ret")); err == nil {
+					cur.Unreachable[n] = true
+				}
+			}
 		case "reads":
 			cur.Reads = s.rest
 		case "why":
